@@ -63,8 +63,61 @@ theorem Tr.ofEq {s s' : S} (h : abs s' = abs s) : Tr s [] s' := by
     split
     · simp
     · split
-      · rfl
-      · rw [ih, abs_deliverDue]
+      · split <;> rfl
+      · split
+        · rfl
+        · rw [ih, abs_deliverDue]
+
+@[simp] theorem abs_cancelFired (s : S) (t : Nat) : abs (cancelFired s t) = abs s := rfl
+@[simp] theorem abs_armCancel (s : S) (ms : Nat) : abs (armCancel s ms) = abs s := rfl
+@[simp] theorem abs_disarmCancel (s : S) : abs (disarmCancel s) = abs s := rfl
+
+/-! ### cancellation: nothing but `armCancel` arms it, and an unarmed read is never cancelled -/
+
+theorem cancelAt_softConn (s : S) (f : Conn → Conn) : (softConn s f).w.cancelAt = s.w.cancelAt := by
+  unfold softConn; split <;> rfl
+theorem cancelAt_deliverDue (s : S) (e : Timed) : (deliverDue s e).w.cancelAt = s.w.cancelAt := by
+  unfold deliverDue; rw [cancelAt_softConn]
+theorem cancelAt_pumpUntil (fuel : Nat) (s : S) (t : Nat) : (pumpUntil fuel s t).w.cancelAt = s.w.cancelAt := by
+  induction fuel generalizing s with
+  | zero => rfl
+  | succ n ih =>
+    unfold pumpUntil
+    split
+    · rfl
+    · rw [ih, cancelAt_deliverDue]
+theorem cancelAt_pump (s : S) (t : Nat) : (pump s t).w.cancelAt = s.w.cancelAt := cancelAt_pumpUntil _ _ _
+
+/-- a read is cancelled only if a cancellation was armed; otherwise the arming is untouched -/
+theorem awaitQueue_cancel (fuel : Nat) {s s' : S} {d : Nat} {r : ReadRes} (h : awaitQueue fuel s d = (r, s')) :
+    (r = .cancelled ∧ s.w.cancelAt.isSome = true) ∨ (r ≠ .cancelled ∧ s'.w.cancelAt = s.w.cancelAt) := by
+  induction fuel generalizing s with
+  | zero => unfold awaitQueue at h; cases h; exact .inr ⟨by simp, rfl⟩
+  | succ n ih =>
+    unfold awaitQueue at h
+    split at h
+    · cases h; exact .inr ⟨by simp, by unfold popQueue; rw [cancelAt_softConn]⟩
+    · have hcd : ∀ lim tc, cancelDue s lim = some tc → s.w.cancelAt.isSome = true := by
+        intro lim tc hc; unfold cancelDue at hc
+        cases hca : s.w.cancelAt with
+        | none => rw [hca] at hc; cases hc
+        | some x => rfl
+      split at h
+      · split at h
+        · rename_i tc hc; cases h; exact .inl ⟨rfl, hcd _ _ hc⟩
+        · cases h; exact .inr ⟨by simp, rfl⟩
+      · split at h
+        · rename_i tc hc; cases h; exact .inl ⟨rfl, hcd _ _ hc⟩
+        · rename_i e _ _
+          rcases ih h with ⟨h1, h2⟩ | ⟨h1, h2⟩
+          · exact .inl ⟨h1, by rw [cancelAt_deliverDue] at h2; exact h2⟩
+          · exact .inr ⟨h1, by rw [h2, cancelAt_deliverDue]⟩
+
+theorem awaitQueue_unarmed (fuel : Nat) {s s' : S} {d : Nat} {r : ReadRes} (hn : s.w.cancelAt = none)
+    (h : awaitQueue fuel s d = (r, s')) : r ≠ .cancelled ∧ s'.w.cancelAt = none := by
+  rcases awaitQueue_cancel fuel h with ⟨_, h2⟩ | ⟨h1, h2⟩
+  · rw [hn] at h2; cases h2
+  · exact ⟨h1, by rw [h2, hn]⟩
 
 @[simp] theorem abs_readAvailable (fuel : Nat) (s : S) (acc : List Bytes) : abs (readAvailable fuel s acc).2 = abs s := by
   induction fuel generalizing s acc with
@@ -255,6 +308,14 @@ theorem protoAuthenticate_tr {p : Params} {rx : Reactions} {s s' : S} {token key
         have ht : Tr s [.wrHS c.cid c.packetId tk] s1 := Tr.congr_left (abs_flush s) ht
         have hhs : HsTok (some tk) (.wrHS c.cid c.packetId tk) := ⟨_, _, _, rfl, rfl⟩
         split at h
+        · rename_i s2 hq
+          simp only [Prod.mk.injEq] at h
+          obtain ⟨rfl, rfl⟩ := h
+          have ha : abs s2 = abs s1 := by
+            have := abs_awaitQueue (s1.w.pending.length + 1) s1 (s1.w.now + p.readTimeout)
+            rw [hq] at this; exact this
+          refine ⟨_, Tr.congr_right ha ht, ?_, by intro h; cases h⟩
+          intro e he; simp only [List.mem_singleton] at he; subst he; exact .inl hhs
         · rename_i s2 hq
           simp only [Prod.mk.injEq] at h
           obtain ⟨rfl, rfl⟩ := h
@@ -498,20 +559,43 @@ theorem nData_closed {tr : List Ev} (h : ∀ e ∈ tr, isClosed e = true) : nDat
 
 theorem coreOf_opDisconnect (s : S) : coreOf (opDisconnect s) = none := (opDisconnect_tr s).1
 
+theorem cancelAt_opWrite {rx : Reactions} {s s' : S} {f : Bytes} (h : opWrite rx s f = .ok s') :
+    s'.w.cancelAt = s.w.cancelAt := by
+  unfold opWrite at h
+  split at h
+  · unfold opWriteData at h
+    split at h
+    · cases h
+    · split at h
+      · cases h
+      · split at h
+        · cases h
+        · cases h; rfl
+  · unfold opWriteV2 at h
+    split at h
+    · cases h
+    · split at h
+      · cases h
+      · cases h; rfl
+
+theorem cancelAt_opDisconnect (s : S) : (opDisconnect s).w.cancelAt = s.w.cancelAt := by
+  unfold opDisconnect; split <;> rfl
+
 /-- the transmit / retry loop: only data packets carrying the frame are written, at most `n` of them;
-    a final timeout means exactly `n` were written and the connection was dropped; success means one
-    more response than before -/
+    a timeout result means the connection was dropped and — unless the caller's cancellation was armed —
+    exactly `n` were written; success means one more response than before -/
 theorem sendLoop_tr {p : Params} {rx : Reactions} {frame : Bytes} (n : Nat) {s s' : S} {acc : List Bytes}
     {r : R (List Bytes)} (h : sendLoop p rx frame n s acc = (r, s')) :
     ∃ tr, Tr s tr s' ∧ (∀ e ∈ tr, DataOf frame e ∨ isClosed e = true) ∧ nData tr ≤ n ∧
-      (r = .error .timeout → nData tr = n ∧ 0 < n ∧ coreOf s' = none) ∧
+      (r = .error .timeout → 0 < n ∧ coreOf s' = none ∧ (s.w.cancelAt = none → nData tr = n)) ∧
       (∀ got, r = .ok got → (n = 0 ∧ got = acc ∧ s' = s) ∨ (∃ f, got = acc ++ [f] ∧ 1 ≤ nData tr)) ∧
-      (0 < n → nData tr = 0 → ∃ e, r = .error e ∧ s' = s ∧ opWrite rx s frame = .error e) := by
+      (0 < n → nData tr = 0 → ∃ e, r = .error e ∧ s' = s ∧ opWrite rx s frame = .error e) ∧
+      (s.w.cancelAt = none → s'.w.cancelAt = none) := by
   induction n generalizing s with
   | zero =>
     unfold sendLoop at h; cases h
     exact ⟨[], Tr.rfl' _, by simp, by simp [nData], (by intro h; cases h),
-      fun got hg => .inl ⟨rfl, by cases hg; rfl, rfl⟩, by intro h; omega⟩
+      fun got hg => .inl ⟨rfl, by cases hg; rfl, rfl⟩, (by intro h; omega), id⟩
   | succ n ih =>
     unfold sendLoop at h
     split at h
@@ -522,55 +606,91 @@ theorem sendLoop_tr {p : Params} {rx : Reactions} {frame : Bytes} (n : Nat) {s s
           unfold opWrite opWriteData opWriteV2 at hw
           cases he
           repeat (first | split at hw | cases hw),
-        (by intro got hg; cases hg), fun _ _ => ⟨e, rfl, rfl, hw⟩⟩
+        (by intro got hg; cases hg), fun _ _ => ⟨e, rfl, rfl, hw⟩, id⟩
     · rename_i s1 hw
       obtain ⟨ev, hdata, ht1⟩ := opWrite_tr hw
+      have hca1 := cancelAt_opWrite hw
       have hn1 : nData [ev] = 1 := by simp [nData, hdata.isData]
+      have hshape1 : ∀ e ∈ [ev], DataOf frame e ∨ isClosed e = true := by
+        intro e he; simp only [List.mem_singleton] at he; subst he; exact .inl hdata
       split at h
       · rename_i s2 hq
         have ha : abs s2 = abs s1 := by
           have := abs_awaitQueue (s1.w.pending.length + 1) s1 (s1.w.now + p.readTimeout)
           rw [hq] at this; exact this
+        have hca2 : s2.w.cancelAt = s1.w.cancelAt := by
+          rcases awaitQueue_cancel _ hq with ⟨h1, _⟩ | ⟨_, h2⟩
+          · cases h1
+          · exact h2
         have ht2 : Tr s [ev] s2 := Tr.congr_right ha ht1
         split at h
         · rename_i hn
-          obtain ⟨tr2, htr2, hshape2, hle2, hto2, hok2, _⟩ := ih h
-          refine ⟨[ev] ++ tr2, ht2.trans htr2, ?_, by rw [nData_append, hn1]; omega, ?_, ?_, ?_⟩
+          obtain ⟨tr2, htr2, hshape2, hle2, hto2, hok2, _, hnc2⟩ := ih h
+          refine ⟨[ev] ++ tr2, ht2.trans htr2, ?_, by rw [nData_append, hn1]; omega, ?_, ?_, ?_, ?_⟩
           · intro e he; rcases List.mem_append.1 he with he | he
-            · simp only [List.mem_singleton] at he; subst he; exact .inl hdata
+            · exact hshape1 e he
             · exact hshape2 e he
-          · intro hr; obtain ⟨h1, _, h3⟩ := hto2 hr
-            exact ⟨by rw [nData_append, hn1, h1]; omega, by omega, h3⟩
+          · intro hr; obtain ⟨_, h3, h4⟩ := hto2 hr
+            exact ⟨by omega, h3, fun hnc => by rw [nData_append, hn1, h4 (by rw [hca2, hca1]; exact hnc)]; omega⟩
           · intro got hg
             rcases hok2 got hg with ⟨hz, _⟩ | ⟨f, hf, _⟩
             · omega
             · exact .inr ⟨f, hf, by rw [nData_append, hn1]; omega⟩
           · intro _ hz; rw [nData_append, hn1] at hz; omega
+          · intro hnc; exact hnc2 (by rw [hca2, hca1]; exact hnc)
         · rename_i hn
           simp only [Prod.mk.injEq] at h
           obtain ⟨rfl, rfl⟩ := h
           obtain ⟨tr2, htr2, hcl⟩ := opDisconnect_tr' s2
           have hz : nData tr2 = 0 := nData_closed hcl
-          refine ⟨[ev] ++ tr2, ht2.trans htr2, ?_, by rw [nData_append, hn1, hz]; omega, ?_, (by intro got hg; cases hg), ?_⟩
+          refine ⟨[ev] ++ tr2, ht2.trans htr2, ?_, by rw [nData_append, hn1, hz]; omega, ?_, (by intro got hg; cases hg), ?_, ?_⟩
           · intro e he; rcases List.mem_append.1 he with he | he
-            · simp only [List.mem_singleton] at he; subst he; exact .inl hdata
+            · exact hshape1 e he
             · exact .inr (hcl e he)
-          · intro _; exact ⟨by rw [nData_append, hn1, hz]; omega, by omega, coreOf_opDisconnect s2⟩
+          · intro _; exact ⟨by omega, coreOf_opDisconnect s2, fun _ => by rw [nData_append, hn1, hz]; omega⟩
           · intro _ hz'; rw [nData_append, hn1] at hz'; omega
+          · intro hnc; rw [cancelAt_opDisconnect, hca2, hca1]; exact hnc
+      · -- the read was cancelled: disconnect, reported as a timeout
+        rename_i s2 hq
+        have ha : abs s2 = abs s1 := by
+          have := abs_awaitQueue (s1.w.pending.length + 1) s1 (s1.w.now + p.readTimeout)
+          rw [hq] at this; exact this
+        have harmed : s1.w.cancelAt.isSome = true := by
+          rcases awaitQueue_cancel _ hq with ⟨_, h2⟩ | ⟨h1, _⟩
+          · exact h2
+          · exact absurd rfl h1
+        have ht2 : Tr s [ev] s2 := Tr.congr_right ha ht1
+        simp only [Prod.mk.injEq] at h
+        obtain ⟨rfl, rfl⟩ := h
+        obtain ⟨tr2, htr2, hcl⟩ := opDisconnect_tr' s2
+        have hz : nData tr2 = 0 := nData_closed hcl
+        refine ⟨[ev] ++ tr2, ht2.trans htr2, ?_, by rw [nData_append, hn1, hz]; omega, ?_, (by intro got hg; cases hg), ?_, ?_⟩
+        · intro e he; rcases List.mem_append.1 he with he | he
+          · exact hshape1 e he
+          · exact .inr (hcl e he)
+        · intro _
+          refine ⟨by omega, coreOf_opDisconnect s2, fun hnc => ?_⟩
+          rw [hca1, hnc] at harmed; cases harmed
+        · intro _ hz'; rw [nData_append, hn1] at hz'; omega
+        · intro hnc; rw [hca1, hnc] at harmed; cases harmed
       · rename_i raw s2 hq
         have ha : abs s2 = abs s1 := by
           have := abs_awaitQueue (s1.w.pending.length + 1) s1 (s1.w.now + p.readTimeout)
           rw [hq] at this; exact this
+        have hca2 : s2.w.cancelAt = s1.w.cancelAt := by
+          rcases awaitQueue_cancel _ hq with ⟨h1, _⟩ | ⟨_, h2⟩
+          · cases h1
+          · exact h2
+        have hnc' : s.w.cancelAt = none → s2.w.cancelAt = none := by intro hnc; rw [hca2, hca1]; exact hnc
         have ht2 : Tr s [ev] s2 := Tr.congr_right ha ht1
-        have hshape1 : ∀ e ∈ [ev], DataOf frame e ∨ isClosed e = true := by
-          intro e he; simp only [List.mem_singleton] at he; subst he; exact .inl hdata
         split at h
         · simp only [Prod.mk.injEq] at h
           obtain ⟨rfl, rfl⟩ := h
           obtain ⟨tr2, htr2, hcl⟩ := opDisconnect_tr' s2
           have hz : nData tr2 = 0 := nData_closed hcl
           refine ⟨[ev] ++ tr2, ht2.trans htr2, ?_, by rw [nData_append, hn1, hz]; omega, (by intro h; cases h),
-            (by intro got hg; cases hg), by intro _ hz'; rw [nData_append, hn1] at hz'; omega⟩
+            (by intro got hg; cases hg), (by intro _ hz'; rw [nData_append, hn1] at hz'; omega),
+            fun hnc => by rw [cancelAt_opDisconnect]; exact hnc' hnc⟩
           intro e he; rcases List.mem_append.1 he with he | he
           · exact hshape1 e he
           · exact .inr (hcl e he)
@@ -579,7 +699,8 @@ theorem sendLoop_tr {p : Params} {rx : Reactions} {frame : Bytes} (n : Nat) {s s
           obtain ⟨tr2, htr2, hcl⟩ := opDisconnect_tr' s2
           have hz : nData tr2 = 0 := nData_closed hcl
           refine ⟨[ev] ++ tr2, ht2.trans htr2, ?_, by rw [nData_append, hn1, hz]; omega, (by intro h; cases h),
-            (by intro got hg; cases hg), by intro _ hz'; rw [nData_append, hn1] at hz'; omega⟩
+            (by intro got hg; cases hg), (by intro _ hz'; rw [nData_append, hn1] at hz'; omega),
+            fun hnc => by rw [cancelAt_opDisconnect]; exact hnc' hnc⟩
           intro e he; rcases List.mem_append.1 he with he | he
           · exact hshape1 e he
           · exact .inr (hcl e he)
@@ -587,15 +708,14 @@ theorem sendLoop_tr {p : Params} {rx : Reactions} {frame : Bytes} (n : Nat) {s s
           simp only [Prod.mk.injEq] at h
           obtain ⟨rfl, rfl⟩ := h
           refine ⟨[ev], ht2, hshape1, by rw [hn1]; omega, ?_, (by intro got hg; cases hg),
-            by intro _ hz'; rw [hn1] at hz'; omega⟩
+            (by intro _ hz'; rw [hn1] at hz'; omega), hnc'⟩
           intro he; cases he
           rcases decodeRead_err hd with h1 | h1 <;> cases h1
         · rename_i f hd
           simp only [Prod.mk.injEq] at h
           obtain ⟨rfl, rfl⟩ := h
           exact ⟨[ev], ht2, hshape1, by rw [hn1]; omega, (by intro h; cases h),
-            fun got hg => .inr ⟨f, by cases hg; rfl, by omega⟩, by intro _ hz'; rw [hn1] at hz'; omega⟩
-
+            fun got hg => .inr ⟨f, by cases hg; rfl, by omega⟩, (by intro _ hz'; rw [hn1] at hz'; omega), hnc'⟩
 
 theorem readAvailable_err {fuel : Nat} {s s' : S} {acc : List Bytes} {e : Err}
     (h : readAvailable fuel s acc = (.error e, s')) : e = .protocol ∨ e = indexError := by
@@ -616,38 +736,187 @@ theorem abs_of_readAvailable {fuel : Nat} {s s' : S} {acc : List Bytes} {r : R (
     (h : readAvailable fuel s acc = (r, s')) : abs s' = abs s := by
   have := abs_readAvailable fuel s acc; rw [h] at this; exact this
 
+theorem cancelAt_readAvailable (fuel : Nat) (s : S) (acc : List Bytes) :
+    (readAvailable fuel s acc).2.w.cancelAt = s.w.cancelAt := by
+  induction fuel generalizing s acc with
+  | zero => rfl
+  | succ n ih =>
+    unfold readAvailable
+    split
+    · rfl
+    · split
+      · unfold popQueue; rw [cancelAt_softConn]
+      · rw [ih]; unfold popQueue; rw [cancelAt_softConn]
+
+theorem cancelAt_of_readAvailable {fuel : Nat} {s s' : S} {acc : List Bytes} {r : R (List Bytes)}
+    (h : readAvailable fuel s acc = (r, s')) : s'.w.cancelAt = s.w.cancelAt := by
+  have := cancelAt_readAvailable fuel s acc; rw [h] at this; exact this
+
 /-- the body of `LAN.send` once connected and authenticated -/
 theorem exchange_tr {p : Params} {rx : Reactions} {s s' : S} {frame : Bytes} {n : Nat} {r : R (List Bytes)}
     (h : exchange p rx s frame n = (r, s')) :
     ∃ tr, Tr s tr s' ∧ (∀ e ∈ tr, DataOf frame e ∨ isClosed e = true) ∧ nData tr ≤ n ∧
-      (r = .error .timeout → nData tr = n ∧ 0 < n ∧ coreOf s' = none) ∧
-      (∀ got, r = .ok got → n = 0 ∨ 1 ≤ nData tr) := by
+      (r = .error .timeout → 0 < n ∧ coreOf s' = none ∧ (s.w.cancelAt = none → nData tr = n)) ∧
+      (∀ got, r = .ok got → n = 0 ∨ 1 ≤ nData tr) ∧
+      (s.w.cancelAt = none → s'.w.cancelAt = none) := by
   unfold exchange at h
   split at h
   · rename_i e s3 hpre
     simp only [Prod.mk.injEq] at h
     obtain ⟨rfl, rfl⟩ := h
-    refine ⟨[], Tr.ofEq (abs_of_readAvailable hpre), by simp, by simp [nData], ?_, (by intro got hg; cases hg)⟩
+    refine ⟨[], Tr.ofEq (abs_of_readAvailable hpre), by simp, by simp [nData], ?_, (by intro got hg; cases hg),
+      fun hnc => by rw [cancelAt_of_readAvailable hpre]; exact hnc⟩
     intro he; cases he
     rcases readAvailable_err hpre with h1 | h1 <;> cases h1
   · rename_i pre s3 hpre
     have ha3 := abs_of_readAvailable hpre
+    have hca3 := cancelAt_of_readAvailable hpre
     split at h
     · rename_i e s4 hloop
       simp only [Prod.mk.injEq] at h
       obtain ⟨rfl, rfl⟩ := h
-      obtain ⟨tr, ht, hshape, hle, hto, _, _⟩ := sendLoop_tr n hloop
-      exact ⟨tr, Tr.congr_left ha3 ht, hshape, hle, hto, (by intro got hg; cases hg)⟩
+      obtain ⟨tr, ht, hshape, hle, hto, _, _, hnc⟩ := sendLoop_tr n hloop
+      refine ⟨tr, Tr.congr_left ha3 ht, hshape, hle, ?_, (by intro got hg; cases hg), fun h0 => hnc (by rw [hca3]; exact h0)⟩
+      intro hr
+      obtain ⟨h1, h2, h3⟩ := hto hr
+      exact ⟨h1, h2, fun h0 => h3 (by rw [hca3]; exact h0)⟩
     · rename_i got s4 hloop
-      obtain ⟨tr, ht, hshape, hle, _, hok, _⟩ := sendLoop_tr n hloop
+      obtain ⟨tr, ht, hshape, hle, _, hok, _, hnc⟩ := sendLoop_tr n hloop
       have ha4 := abs_of_readAvailable h
-      refine ⟨tr, Tr.congr_right ha4 (Tr.congr_left ha3 ht), hshape, hle, ?_, ?_⟩
+      refine ⟨tr, Tr.congr_right ha4 (Tr.congr_left ha3 ht), hshape, hle, ?_, ?_,
+        fun h0 => by rw [cancelAt_of_readAvailable h]; exact hnc (by rw [hca3]; exact h0)⟩
       · intro hr; subst hr
         rcases readAvailable_err h with h1 | h1 <;> cases h1
       · intro _ _
         rcases hok got rfl with ⟨hz, _⟩ | ⟨_, _, h1⟩
         · exact .inl hz
         · exact .inr h1
+
+/-! ### an unarmed cancellation stays unarmed -/
+
+theorem cancelAt_opWriteHS {rx : Reactions} {s s' : S} {tok : Bytes} (h : opWriteHS rx s tok = .ok s') :
+    s'.w.cancelAt = s.w.cancelAt := by
+  unfold opWriteHS at h
+  split at h
+  · cases h
+  · split at h
+    · cases h
+    · split at h
+      · cases h
+      · cases h; rfl
+
+theorem cancelAt_opAccept (s : S) (lk : Bytes) (e : Nat) : (opAccept s lk e).w.cancelAt = s.w.cancelAt := by
+  unfold opAccept; split <;> rfl
+
+theorem cancelAt_opConnect {p : Params} {s s' : S} {r : R Unit} (h : opConnect p s = (r, s')) :
+    s'.w.cancelAt = s.w.cancelAt := by
+  unfold opConnect at h
+  split at h
+  · cases h; rfl
+  · cases h; rfl
+  · cases h; rw [cancelAt_pump]; rfl
+  · cases h; rfl
+
+theorem cancelAt_acceptReply {p : Params} {s s' : S} {key raw : Bytes} {r : R Unit} (h : acceptReply p s key raw = (r, s')) :
+    s'.w.cancelAt = s.w.cancelAt := by
+  unfold acceptReply at h
+  split at h
+  · cases h; rfl
+  · cases h; rfl
+  · split at h
+    · cases h; rfl
+    · cases h; exact cancelAt_opAccept _ _ _
+
+theorem noCancel_protoAuthenticate {p : Params} {rx : Reactions} {s s' : S} {token key : Option Bytes} {r : R Unit}
+    (hn : s.w.cancelAt = none) (h : protoAuthenticate p rx s token key = (r, s')) : s'.w.cancelAt = none := by
+  have hf : (flush s).w.cancelAt = none := by unfold flush; rw [cancelAt_softConn]; exact hn
+  unfold protoAuthenticate at h
+  split at h
+  · split at h
+    · cases h; exact hn
+    · split at h
+      · cases h; exact hf
+      · cases h; exact hf
+      · rename_i s1 hw
+        have h1 : s1.w.cancelAt = none := by rw [cancelAt_opWriteHS hw]; exact hf
+        split at h
+        · rename_i s2 hq
+          simp only [Prod.mk.injEq] at h
+          obtain ⟨_, rfl⟩ := h
+          exact (awaitQueue_unarmed _ h1 hq).2
+        · rename_i s2 hq
+          simp only [Prod.mk.injEq] at h
+          obtain ⟨_, rfl⟩ := h
+          exact (awaitQueue_unarmed _ h1 hq).2
+        · rename_i raw s2 hq
+          rw [cancelAt_acceptReply h]; exact (awaitQueue_unarmed _ h1 hq).2
+  · cases h; exact hn
+
+theorem noCancel_authLoop {p : Params} {rx : Reactions} {token key : Option Bytes} (n : Nat) {s s' : S} {r : R Unit}
+    (hn : s.w.cancelAt = none) (h : authLoop p rx token key n s = (r, s')) : s'.w.cancelAt = none := by
+  induction n generalizing s with
+  | zero => unfold authLoop at h; cases h; exact hn
+  | succ n ih =>
+    unfold authLoop at h
+    split at h
+    · rename_i s1 hp
+      simp only [Prod.mk.injEq] at h
+      obtain ⟨_, rfl⟩ := h
+      exact noCancel_protoAuthenticate hn hp
+    · rename_i s1 hp
+      have h1 := noCancel_protoAuthenticate hn hp
+      split at h
+      · exact ih h1 h
+      · simp only [Prod.mk.injEq] at h
+        obtain ⟨_, rfl⟩ := h
+        rw [cancelAt_opDisconnect]; exact h1
+    · rename_i e s1 _ hp
+      simp only [Prod.mk.injEq] at h
+      obtain ⟨_, rfl⟩ := h
+      exact noCancel_protoAuthenticate hn hp
+
+theorem cancelAt_finishAuth {p : Params} {s s' : S} {tk ky : Option Bytes} {r : R Unit} (h : finishAuth p s tk ky = (r, s')) :
+    s'.w.cancelAt = s.w.cancelAt := by
+  unfold finishAuth at h
+  split at h
+  · cases h; rfl
+  · cases h; rw [cancelAt_pump]; rfl
+
+theorem noCancel_lanAuthenticate {p : Params} {rx : Reactions} {s s' : S} {token key : Option Bytes} {n : Nat} {r : R Unit}
+    (hn : s.w.cancelAt = none) (h : lanAuthenticate p rx s token key n = (r, s')) : s'.w.cancelAt = none := by
+  unfold lanAuthenticate at h
+  split at h
+  · have h0 : (setVersion3 (opDisconnect s)).w.cancelAt = none := by
+      show (opDisconnect s).w.cancelAt = none
+      rw [cancelAt_opDisconnect]; exact hn
+    split at h
+    · rename_i e s1 hc
+      simp only [Prod.mk.injEq] at h
+      obtain ⟨_, rfl⟩ := h
+      rw [cancelAt_opConnect hc]; exact h0
+    · rename_i s1 hc
+      have h1 : s1.w.cancelAt = none := by rw [cancelAt_opConnect hc]; exact h0
+      split at h
+      · rename_i e s2 hl
+        simp only [Prod.mk.injEq] at h
+        obtain ⟨_, rfl⟩ := h
+        exact noCancel_authLoop n h1 hl
+      · rename_i s2 hl
+        rw [cancelAt_finishAuth h]; exact noCancel_authLoop n h1 hl
+  · split at h
+    · rename_i e s2 hl
+      simp only [Prod.mk.injEq] at h
+      obtain ⟨_, rfl⟩ := h
+      exact noCancel_authLoop n hn hl
+    · rename_i s2 hl
+      rw [cancelAt_finishAuth h]; exact noCancel_authLoop n hn hl
+
+theorem noCancel_ensureAuth {p : Params} {rx : Reactions} {s s' : S} {r : R Unit}
+    (hn : s.w.cancelAt = none) (h : ensureAuth p rx s = (r, s')) : s'.w.cancelAt = none := by
+  unfold ensureAuth at h
+  split at h
+  · exact noCancel_lanAuthenticate hn h
+  · cases h; exact hn
 
 theorem pickCred_none (stored : Option Bytes) : pickCred none none stored = stored := by simp [pickCred]
 
@@ -704,7 +973,7 @@ theorem lanSend_tr {p : Params} {rx : Reactions} {s s' : S} {frame : Bytes} {n :
       (te ≠ [] → (∀ e ∈ ta, isClosed e = false) ∧
         ((connAlive s = true ∧ isV3 s = true ∧ authenticated s = false) ∨ (connAlive s = false ∧ s.l.version = 3) →
           ∃ e ∈ ta, isAccept e = true)) ∧
-      (r = .error .timeout → te ≠ [] → nData te = n ∧ coreOf s' = none) ∧
+      (r = .error .timeout → te ≠ [] → coreOf s' = none ∧ (s.w.cancelAt = none → nData te = n)) ∧
       (∀ got, r = .ok got → n = 0 ∨ 1 ≤ nData te) := by
   unfold lanSend at h
   split at h
@@ -757,9 +1026,14 @@ theorem lanSend_tr {p : Params} {rx : Reactions} {s s' : S} {frame : Bytes} {n :
         · rename_i s2 hauth
           obtain ⟨s1', tc2, ta, g1, g2, g3, g4, _, g6⟩ := ensureAuth_tr hauth
           rw [htok] at g4
-          obtain ⟨te, k1, k2, k3, k4, k5⟩ := exchange_tr h
+          obtain ⟨te, k1, k2, k3, k4, k5, _⟩ := exchange_tr h
+          have hnc2 : s.w.cancelAt = none → s2.w.cancelAt = none := by
+            intro h0
+            refine noCancel_ensureAuth ?_ hauth
+            rw [cancelAt_opConnect hconn, cancelAt_opDisconnect]; exact h0
           refine ⟨s1', s2, _ ++ tc2, ta, te, htc'.trans g1, g2, k1, ?_, g4, k2, k3,
-            (fun h1 => by rw [hal] at h1; cases h1), ?_, ?_, fun hr _ => ⟨(k4 hr).1, (k4 hr).2.2⟩, k5⟩
+            (fun h1 => by rw [hal] at h1; cases h1), ?_, ?_,
+            fun hr _ => ⟨(k4 hr).2.1, fun h0 => (k4 hr).2.2 (hnc2 h0)⟩, k5⟩
           · intro e he; rcases List.mem_append.1 he with he | he
             · exact hshape_c e he
             · exact g3 e he
@@ -788,9 +1062,10 @@ theorem lanSend_tr {p : Params} {rx : Reactions} {s s' : S} {frame : Bytes} {n :
     · rename_i s2 hauth
       obtain ⟨s1', tc2, ta, g1, g2, g3, g4, g5, g6⟩ := ensureAuth_tr hauth
       have := g5 hal; subst this
-      obtain ⟨te, k1, k2, k3, k4, k5⟩ := exchange_tr h
+      obtain ⟨te, k1, k2, k3, k4, k5, _⟩ := exchange_tr h
+      have hnc2 : s.w.cancelAt = none → s2.w.cancelAt = none := fun h0 => noCancel_ensureAuth h0 hauth
       refine ⟨s1', s2, [], ta, te, g1, g2, k1, by simp, g4, k2, k3, fun _ => rfl, hnf, ?_,
-        fun hr _ => ⟨(k4 hr).1, (k4 hr).2.2⟩, k5⟩
+        fun hr _ => ⟨(k4 hr).2.1, fun h0 => (k4 hr).2.2 (hnc2 h0)⟩, k5⟩
       intro _
       obtain ⟨m1, m2⟩ := g6 rfl
       refine ⟨m1, ?_⟩
@@ -799,6 +1074,35 @@ theorem lanSend_tr {p : Params} {rx : Reactions} {s s' : S} {frame : Bytes} {n :
       · exact m2 h2 h3
       · rw [hal] at h1; cases h1
 
+
+theorem noCancel_lanSend {p : Params} {rx : Reactions} {s s' : S} {frame : Bytes} {n : Nat} {r : R (List Bytes)}
+    (hn : s.w.cancelAt = none) (h : lanSend p rx s frame n = (r, s')) : s'.w.cancelAt = none := by
+  have h0 : (opDisconnect s).w.cancelAt = none := by rw [cancelAt_opDisconnect]; exact hn
+  unfold lanSend at h
+  split at h
+  · split at h
+    · rename_i e s1 hc
+      simp only [Prod.mk.injEq] at h
+      obtain ⟨_, rfl⟩ := h
+      rw [cancelAt_opConnect hc]; exact h0
+    · rename_i s1 hc
+      have h1 : s1.w.cancelAt = none := by rw [cancelAt_opConnect hc]; exact h0
+      split at h
+      · rename_i e s2 ha
+        simp only [Prod.mk.injEq] at h
+        obtain ⟨_, rfl⟩ := h
+        exact noCancel_ensureAuth h1 ha
+      · rename_i s2 ha
+        obtain ⟨_, _, _, _, _, _, k⟩ := exchange_tr h
+        exact k (noCancel_ensureAuth h1 ha)
+  · split at h
+    · rename_i e s2 ha
+      simp only [Prod.mk.injEq] at h
+      obtain ⟨_, rfl⟩ := h
+      exact noCancel_ensureAuth hn ha
+    · rename_i s2 ha
+      obtain ⟨_, _, _, _, _, _, k⟩ := exchange_tr h
+      exact k (noCancel_ensureAuth hn ha)
 
 /-! ### histories -/
 
@@ -840,6 +1144,24 @@ theorem step_tr {p : Params} {rx : Reactions} {s s' : S} {op : Op} {o : Outcome}
     simp only [step, Prod.mk.injEq] at h
     obtain ⟨_, rfl⟩ := h
     exact ⟨[], Tr.ofEq (abs_setLifetime _ _)⟩
+  | sendCancelled f ms =>
+    simp only [step] at h
+    cases hl : lanSend p rx (armCancel s ms) f Generated.lanRetries with
+    | mk r s1 =>
+      rw [hl] at h
+      obtain ⟨s1', s2, tc, ta, te, h1, h2, h3, _⟩ := lanSend_tr hl
+      have : s' = pump (disarmCancel s1) (s.w.now + ms) := by cases r <;> simp [outcomeOfSend, outcomeDisarm] at h <;> exact h.2.symm
+      subst this
+      exact ⟨_, Tr.congr_right (by rw [abs_pump, abs_disarmCancel]) (Tr.congr_left (abs_armCancel s ms) ((h1.trans h2).trans h3))⟩
+  | authCancelled t k ms =>
+    simp only [step] at h
+    cases hl : lanAuthenticate p rx (armCancel s ms) (some t) (some k) Generated.lanRetries with
+    | mk r s1 =>
+      rw [hl] at h
+      obtain ⟨s1', tc, ta, h1, h2, _⟩ := lanAuthenticate_tr hl
+      have : s' = pump (disarmCancel s1) (s.w.now + ms) := by cases r <;> simp [outcomeOfAuth, outcomeDisarm] at h <;> exact h.2.symm
+      subst this
+      exact ⟨_, Tr.congr_right (by rw [abs_pump, abs_disarmCancel]) (Tr.congr_left (abs_armCancel s ms) (h1.trans h2))⟩
 
 /-- **refinement**: every history of the Session model is a run of the abstract automaton -/
 theorem run_tr (p : Params) (rx : Reactions) (ops : List Op) (s : S) : ∃ tr, Tr s tr (run p rx s ops).2 := by
